@@ -22,18 +22,25 @@
 //! (state transformers over one universe, incl. nodes without a target name at every level) up to a
 //! stated depth, one tree per directory, plus a few large shapes (chain, fan, ladder of diamonds).
 //!
+//! A third engine (`c05/texts.rs`) explores the *names and texts* the two others keep constant: every assignment of
+//! target names from a small alphabet to a skeleton of classes nested four deep in three places (equal simple names
+//! in different outer classes, at every pair of places), texts of every length with a multi-byte last character in
+//! every text slot of the mappings and in the version names (accepting and refusing situations), comments made of
+//! escapes, files of several read buffers, and the order of the entries inside the files.
+//!
 //! Clause table (statement / quantifier of C05 → where it is decided, over which space)
 //!
 //! | clause | decided in | space |
 //! |---|---|---|
 //! | mappings of a version = root + exactly the diffs on the root→version path, in order | `check_answer` against `judge` (fold of the reference `apply` along every path); `histories::judge_on_disk` against the edit functions | shapes engine: every rooted DAG ≤ 3 versions (quick; all 79 with 4 versions in the light form) / ≤ 4 (thorough; 5 in the light form) × every labelling with k pool states; histories engine: every history of the depth patterns 1,1 / 2 / 2,1 / 1,2 / 1,1,1 (quick; a pattern lists how many edits each edge folds into one diff) + 2,2 / 1,1,1,1 (three roots) / 2,1,1 / 1,2,1 / 1,1,2 (two roots) (thorough) over the edit alphabet from 4 root states; per root the web of all commuting pairs of single steps (versions with two parents); chain of 96/768 edges, fan of 600/6000 children (28 with names from the wild), ladder of 8/12 diamonds |
-//! | … followed by inner-class-name extension | `extend_ref` applied to every expected state (both engines); root printed extended and contracted | pool states and history states with classes nested once and twice, outer renamed / inner renamed / nested added / nested nameless |
+//! | … followed by inner-class-name extension | `extend_ref` applied to every expected state (all engines); root printed extended and contracted | pool states and history states with classes nested once and twice, outer renamed / inner renamed / nested added / nested nameless; texts engine: the skeleton A, A$B, A$B$C, A$B$C$E, D, D$B, D$B$C, P, P$B × every assignment of target names (2 per top-level class: equal simple names in two packages, a package-less class named like its key; 3 per nested class: `P`, `Q`, the last part of its key) = 5832 states, each the root, the child and the grandchild of a directory; a chain nested 16 deep with one simple name; odd but legal names (`$` in the package part, trailing / leading / doubled `$`); entries inside the files sorted / reversed (inner before outer) / rotated (also in the histories engine) |
+//! | texts are characters, not bytes (names, comments, version names; also where an error quotes them) | texts engine `mtext` / `vtext`: answers against the model, refusals demanded, any panic is a violation | k letters + one character of 1/2/3/4 bytes for k ≤ 140 (thorough 300) and fifty multi-byte characters, in 9 slots (comment of class / field / method / parameter, target name of class / nested class / field / method / parameter): edited by a diff (answered) and mis-stated by a diff (refused); the same as version names (k ≤ 110, file names < 255 bytes): well-formed + derived unknown names, second root, loop, unreachable pair, diff that does not fit; 14 comments made of the escapes `\\ \n \r \t \0` next to multi-byte characters at every comment level; root and diff files of > 3 read buffers (8 KiB) of multi-byte comments shifted by 0..8 (thorough 64) bytes |
 //! | edit histories: renames, additions, removals, comment edits at every level | `action_census` floors (pool) and `history:edit:<level>.<kind>` floors (histories: add, add with comment, add with members, name on an existing nameless node, rename, remove, comment add/edit/remove × class/field/method/parameter) | see above; composite steps put two edits (also of a node and its member) into one diff |
 //! | the answer does not depend on directory listing order | `run_group`: digest of all answers equal over all orders of a group + every order compared with the oracle | all permutations (≤ 5 files) / rotations, reversal, each file first/last for one labelling per shape; sorted, reversed, rotated for all others; histories: three creation orders alternating |
 //! | every plain version reachable under its name | `run_group` / `judge_on_disk`: `get(name)` gives that version with `Split::None`, `apply_diffs` the oracle's answer; `versions()` = node set | every naming subset (which versions are split) of every shape; a third of the history versions split; 28 names as in the wild (shortcut table, fixture) or with unusual characters (space, `+`, `$`, `%`, parentheses, non-ASCII, leading dot, `.tiny` inside) in the fan |
 //! | every client~server version under either half | same, both halves, `Split::First` / `Split::Second`; the full name may be refused, if accepted it is that version | same |
 //! | no root / two roots / cycle / unreachable version are errors | `mutations` + `run_group` (`malformed:<class>:answered`, `…:arbitrary-answer`; floors per class) | every single mutation of every shape: root removed, second root (existing / new version), every cycle-closing extra edge incl. loops and edges into the root, unreachable pair / parent of each version / cycle / renamed root |
-//! | unknown version is an error | `run_group`: fixed names + names *derived from the directory* (`derived_unknown_names`: a key with a character more or less, padded, other case, `k~`, `~k`, halves swapped, halves of different versions joined, file names, `a#b`) must all be refused by `get` | every directory of the shapes engine (derived names: first listing order of each group) |
+//! | unknown version is an error | `run_group`: fixed names + names *derived from the directory* (`derived_unknown_names`: a key with a character more or less, padded, other case, `k~`, `~k`, halves swapped, halves of different versions joined, file names, `a#b`, the short names that the shortcut table `map_shortcut` maps to a version of the directory) must all be refused by `get` | every directory of the shapes engine (derived names: first listing order of each group); shortcut names: the chains through the wild list |
 //! | (not in the statement: inconsistent diffs, key collisions, stray files, odd diff/root texts) | `Domain::BadDiff` (answer ∈ results of some path or refusal), `Domain::Outside` (no panic only) | each edge replaced by a refused diff; `outside_domain` |
 
 use std::collections::{BTreeMap, BTreeSet};
@@ -47,6 +54,8 @@ use vcore::{json, Ctx, Stats, Value};
 
 #[path = "c05/histories.rs"]
 mod histories;
+#[path = "c05/texts.rs"]
+mod texts;
 
 // ---------------------------------------------------------------------------------------------
 // pool of mapping states (contracted form: a nested class carries its own simple name)
@@ -68,7 +77,8 @@ fn method(c: &mut MClass, name: &str, desc: &str, named: &str, doc: Option<&str>
 	c.methods.insert((name.into(), desc.into()), m);
 }
 
-/// The pool. State 0 is the base; 1 = renames and comment edits at every level; 2 = additions at
+/// The pool. State 0 is the base (class A has two fields `f` and two methods `m` that differ in the descriptor only; the
+/// other states rename, remove and comment one of the two); 1 = renames and comment edits at every level; 2 = additions at
 /// every level; 3 = removals at every level; 4 = comment-only changes and an inner rename;
 /// 5 = removal of whole subtrees plus changes below a nested class. Every ordered pair of states
 /// occurs as an edge of some directory, so every edit kind occurs in both directions and in mixtures.
@@ -78,6 +88,9 @@ fn pool() -> Vec<MSet> {
 		let mut a = class("A", "pkg/Alpha", Some("class A"));
 		field(&mut a, "f", "I", "fieldF", Some("field f"));
 		method(&mut a, "m", "(I)V", "methodM", Some("method m"), &[(0, "p0", Some("param 0"))]);
+		// overloads: the same names with other descriptors are other members
+		field(&mut a, "f", "J", "fieldFJ", None);
+		method(&mut a, "m", "(J)V", "methodMJ", None, &[(0, "pj", None)]);
 		s.classes.insert("A".into(), a);
 		let mut b = class("A$B", "Beta", None);
 		field(&mut b, "g", "LA$B;", "fieldG", None);
@@ -111,6 +124,9 @@ fn pool() -> Vec<MSet> {
 		method(d, "n", "()V", "methodN", Some("method n"), &[(1, "q1", Some("param 1"))]);
 		let a = s2.classes.get_mut("A").unwrap_or_else(|| fail("pool"));
 		a.methods.get_mut(&("m".to_owned(), "(I)V".to_owned())).unwrap_or_else(|| fail("pool")).params.insert(1, MParam { names: row(&[None, Some("p1")]), doc: None });
+		// of two overloads one renamed
+		a.methods.get_mut(&("m".to_owned(), "(J)V".to_owned())).unwrap_or_else(|| fail("pool")).names[1] = Some("methodMJ2".into());
+		a.fields.get_mut(&("f".to_owned(), "J".to_owned())).unwrap_or_else(|| fail("pool")).names[1] = Some("fieldFJ2".into());
 		s2.classes.get_mut("A$B$C").unwrap_or_else(|| fail("pool")).doc = Some("class C\nsecond line".into());
 	}
 
@@ -123,6 +139,9 @@ fn pool() -> Vec<MSet> {
 		let m = a.methods.get_mut(&("m".to_owned(), "(I)V".to_owned())).unwrap_or_else(|| fail("pool"));
 		m.doc = None;
 		m.params.get_mut(&0).unwrap_or_else(|| fail("pool")).doc = None;
+		// one of two overloads removed
+		a.fields.remove(&("f".to_owned(), "J".to_owned()));
+		a.methods.remove(&("m".to_owned(), "(J)V".to_owned()));
 	}
 
 	let mut s4 = base();
@@ -133,6 +152,8 @@ fn pool() -> Vec<MSet> {
 		let m = a.methods.get_mut(&("m".to_owned(), "(I)V".to_owned())).unwrap_or_else(|| fail("pool"));
 		m.doc = Some("method m, other words".into());
 		m.params.clear();
+		// the other overload gets the comment the first one had
+		a.methods.get_mut(&("m".to_owned(), "(J)V".to_owned())).unwrap_or_else(|| fail("pool")).doc = Some("method m".into());
 		s4.classes.get_mut("A$B$C").unwrap_or_else(|| fail("pool")).names[1] = Some("Gamma2".into());
 		s4.classes.get_mut("D").unwrap_or_else(|| fail("pool")).doc = Some("class D".into());
 	}
@@ -850,6 +871,23 @@ fn queries_of(sem: &Sem) -> Vec<String> {
 	q.into_iter().collect()
 }
 
+/// Pairs (short, long) of the shortcut table of version_graph.rs (`map_shortcut`, which callers apply before `get`)
+/// whose long form is one of the names of the wild list. In a directory that has the long version and not the short
+/// one, the short name is the name of no version. Checked against the real table at start (`check_shortcuts`).
+const SHORTCUTS: [(&str, &str); 12] = [
+	("a1.0.15", "a1.0.15~server-a0.1.0"), ("server-a0.1.1", "a1.0.16~server-a0.1.1-1707"), ("b1.8-pre1-client", "b1.8-pre1-201109081459"),
+	("b1.3-client", "b1.3-1750-client"), ("12w05a", "12w05a-1442"), ("1.0", "1.0.0"), ("1.3", "1.3-pre-07261249"), ("2point0_red", "af-2013-red"),
+	("13w16a", "13w16a-04192037"), ("1.12-pre3", "1.12-pre3-1409"), ("1.4", "1.4-pre"), ("15w14a", "af-2015"),
+];
+
+fn check_shortcuts() {
+	for (short, long) in SHORTCUTS {
+		if vg::map_shortcut(short) != long {
+			fail(&format!("the shortcut table no longer maps {short:?} to {long:?}: update SHORTCUTS"));
+		}
+	}
+}
+
 /// Names that no file of the directory defines, derived from the names it does define: what a lookup that
 /// is not exact (prefix, trimmed, case-folded, cut at `~`, by file name, …) would wrongly accept.
 fn derived_unknown_names(sem: &Sem) -> Vec<String> {
@@ -892,6 +930,11 @@ fn derived_unknown_names(sem: &Sem) -> Vec<String> {
 				let sb = b.split_once('~').map_or(b.as_str(), |x| x.1);
 				q.insert(format!("{ca}~{sb}"));
 			}
+		}
+	}
+	for (short, long) in SHORTCUTS {
+		if sem.nodes.contains_key(long) {
+			q.insert(short.to_owned());
 		}
 	}
 	q.retain(|u| !sem.nodes.contains_key(u) && !sem.nodes.values().any(|e| e.keys.iter().any(|(k, _)| k == u)));
@@ -1160,7 +1203,12 @@ fn run_group(run: &Run, g: &Group, perms: &mut BTreeSet<(usize, Vec<usize>)>, na
 		for (u, r) in &obs.unknown_gets {
 			match r {
 				Some(name) => run.ctx.diff("get:unknown-accepted", &format!("get({u:?}) of a version no file names answers with {name:?}"), rp),
-				None => st.outcome("refused:unknown-version-derived"),
+				None => {
+					st.outcome("refused:unknown-version-derived");
+					if SHORTCUTS.iter().any(|(short, _)| short == u) {
+						st.outcome("refused:unknown-version-shortcut");
+					}
+				},
 			}
 		}
 		if sem.domain != Domain::WellFormed {
@@ -1958,6 +2006,7 @@ fn main() {
 	std::env::set_var("RUST_LIB_BACKTRACE", "0");
 	let ctx: &'static Ctx = Box::leak(Box::new(Ctx::new("C05", "model_checking")));
 	let t = texts();
+	check_shortcuts();
 	let (root, mode, tmpfs) = scratch();
 	let counter = AtomicU64::new(0);
 	let run = Run { ctx, t: &t, root: &root, mode, counter: &counter };
@@ -1993,7 +2042,11 @@ fn main() {
 	// second engine: edit histories
 	let hist = histories::run(&run, plan.quick);
 	let hist_wall = ctx.elapsed_s() - shapes_wall;
-	let st = std::mem::take(&mut acc.st).merge(hist.st);
+	let hist_dirs = hist.st.get("history:directories");
+	// third engine: names and texts
+	let txt = texts::run(&run, plan.quick);
+	let txt_wall = ctx.elapsed_s() - shapes_wall - hist_wall;
+	let st = std::mem::take(&mut acc.st).merge(hist.st).merge(txt.st);
 	let leftovers = listing(&root).len();
 	let _ = std::fs::remove_dir_all(&root);
 	if leftovers != 0 {
@@ -2054,9 +2107,10 @@ fn main() {
 		ctx.floor(&format!("directories with two mutations of different classes, read as {class}"), 1, st.get(&format!("pairs:directories:{class}")));
 	}
 	ctx.floor("directories with two mutations of different classes refused", 100, st.get("pairs:refused"));
-	for (name, required, measured) in &hist.floors {
+	for (name, required, measured) in hist.floors.iter().chain(&txt.floors) {
 		ctx.floor(name, *required, *measured);
 	}
+	ctx.floor("names that the shortcut table maps to a version of the directory, refused as unknown", 20, st.get("refused:unknown-version-shortcut"));
 	if !controlled {
 		ctx.note("listing order could not be controlled on the scratch file system: order coverage is whatever the file system produced");
 	}
@@ -2066,6 +2120,7 @@ fn main() {
 	let mut bounds = plan.bounds.clone();
 	if let Some(o) = bounds.as_object_mut() {
 		o.insert("histories_engine".into(), hist.bounds.clone());
+		o.insert("texts_engine".into(), txt.bounds.clone());
 	}
 	let coverage = json!({
 		"states": st.distinct.len(),
@@ -2077,7 +2132,7 @@ fn main() {
 		"exhaustive": exhaustive,
 		"samples": st.samples,
 		"bounds": bounds,
-		"engines": {"shapes": {"directories": shapes_dirs, "wall_s": (shapes_wall * 10.0).round() / 10.0}, "histories": {"directories": st.get("history:directories"), "work_items": hist.items, "versions": st.get("history:versions"), "wall_s": (hist_wall * 10.0).round() / 10.0}},
+		"engines": {"shapes": {"directories": shapes_dirs, "wall_s": (shapes_wall * 10.0).round() / 10.0}, "histories": {"directories": hist_dirs, "work_items": hist.items, "versions": st.get("history:versions"), "wall_s": (hist_wall * 10.0).round() / 10.0}, "texts": {"directories": st.get("texts:directories"), "work_items": txt.items, "wall_s": (txt_wall * 10.0).round() / 10.0}},
 		"outcomes": st.outcomes,
 		"directories": n_dirs,
 		"groups": acc.groups,
@@ -2096,7 +2151,10 @@ fn main() {
 		"the full name `client~server` of a split version may or may not be accepted by get; if accepted it must be that version",
 		"an inconsistent diff (old values not matching) is judged through the reference apply of mapmodel: versions all of whose paths are refused by it must be refused, other answers must be the result of some path",
 		"tmpfs lists a directory in a fixed function of creation order (calibrated at start, every directory read back and compared)",
-		"mapping states come from a pool of hand-written states over one universe (classes A, A$B, A$B$C, D, D$I, E) and, in the histories engine, from edits of four root states over the universe A, A$B, A$B$C, D, E; names outside them are not explored",
+		"mapping states come from a pool of hand-written states over one universe (classes A, A$B, A$B$C, D, D$I, E) and, in the histories engine, from edits of four root states over the universe A, A$B, A$B$C, D, E; the texts engine varies the target names over a skeleton of nine classes and one text slot at a time; other names are not explored",
+		"texts engine: target names of top-level classes have no `$` in their last `/`-separated part and simple names of nested classes have no `$` and no `/` (what contraction on load does to other names is not stated); a nested class is one whose key has a `$` in its last `/`-separated part with something on both sides (duke's documented rule)",
+		"the order of the entries inside a `.tiny` / `.tinydiff` file is not prescribed by the format: files are laid out sorted, reversed and rotated",
+		"a short name of the shortcut table (`map_shortcut`, applied by the callers before `get`) is the name of no version unless a file names it: `get` has to refuse it",
 		"histories engine: every directory is a tree (or chain / fan / ladder with commuting sides), so the path to a version is unique or all paths agree; a step after which a named nested class would have an absent or nameless outer class is left out (the statement's extension is not defined there)",
 		"an entry without a target name cannot be added or removed by a diff (the diff language states names), so nameless entries come from the root file only",
 	]);
@@ -2104,9 +2162,10 @@ fn main() {
 
 fn replay(ctx: &'static Ctx, run: &Run, path: &Path) -> ! {
 	let body = vcore::replay_body(path);
-	if let Some(a) = histories::replay(run, &body) {
+	let engines = |body: &str| histories::replay(run, body).or_else(|| texts::replay(run, body));
+	if let Some(a) = engines(&body) {
 		let before = ctx.violation_count();
-		let b = histories::replay(run, &body).unwrap_or_else(|| fail("replay"));
+		let b = engines(&body).unwrap_or_else(|| fail("replay"));
 		if a.outcomes != b.outcomes || ctx.violation_count() != before * 2 {
 			fail("replay is not deterministic");
 		}
